@@ -75,42 +75,7 @@ func signedIndexRule(c *Ctx, rule, rel string, pick func(recv, meth string) bool
 				}
 				sites++
 				key := fmt.Sprintf("%s.%s/index[%s]#%s", recv, fn.Name(), p.Name(), describeBase(base))
-				lower, upper := false, false
-				var facts []string
-				for _, f := range guards.Facts(b) {
-					L, R, op := f.L, f.R, f.Op
-					// normalise so that the parameter is on the left
-					if paramOf(R) == p && paramOf(L) != p {
-						L, R = R, L
-						op = flip(op)
-					}
-					if paramOf(L) != p {
-						continue
-					}
-					if k, ok := guards.ConstInt(R); ok {
-						if (op == token.GEQ && k >= 0) || (op == token.GTR && k >= -1) || (op == token.EQL && k >= 0) {
-							lower = true
-							facts = append(facts, fmt.Sprintf("%s %s %d", p.Name(), op, k))
-						}
-						// a constant upper bound suffices only against a constant-length array/literal
-						if n, ok := constLen(base); ok {
-							if (op == token.LSS && k <= n) || (op == token.LEQ && k <= n-1) || (op == token.EQL && k < n) {
-								upper = true
-								facts = append(facts, fmt.Sprintf("%s %s %d (len %d)", p.Name(), op, k, n))
-							}
-						}
-						continue
-					}
-					// upper bound against len(base) or len(base)-1
-					if lenOfSame(R, base, 0) && (op == token.LSS) {
-						upper = true
-						facts = append(facts, p.Name()+" < len")
-					}
-					if lenOfSame(R, base, -1) && (op == token.LEQ) {
-						upper = true
-						facts = append(facts, p.Name()+" <= len-1")
-					}
-				}
+				lower, upper, facts := indexGuards(b, p, base)
 				got := "dominating facts: " + strings.Join(facts, ", ")
 				if len(facts) == 0 {
 					got = "no dominating bound on " + p.Name()
@@ -131,6 +96,45 @@ func signedIndexRule(c *Ctx, rule, rel string, pick func(recv, meth string) bool
 		}
 	}
 	r.Note("%s: %d index sites by signed parameters in package %s", rule, sites, rel)
+}
+
+// indexGuards collects the dominating facts that bound parameter p below (>= 0) and above (< len(base)).
+func indexGuards(b *ssa.BasicBlock, p *ssa.Parameter, base ssa.Value) (lower, upper bool, facts []string) {
+	for _, f := range guards.Facts(b) {
+		L, R, op := f.L, f.R, f.Op
+		// normalise so that the parameter is on the left
+		if paramOf(R) == p && paramOf(L) != p {
+			L, R = R, L
+			op = flip(op)
+		}
+		if paramOf(L) != p {
+			continue
+		}
+		if k, ok := guards.ConstInt(R); ok {
+			if (op == token.GEQ && k >= 0) || (op == token.GTR && k >= -1) || (op == token.EQL && k >= 0) {
+				lower = true
+				facts = append(facts, fmt.Sprintf("%s %s %d", p.Name(), op, k))
+			}
+			// a constant upper bound suffices only against a constant-length array/literal
+			if n, ok := constLen(base); ok {
+				if (op == token.LSS && k <= n) || (op == token.LEQ && k <= n-1) || (op == token.EQL && k < n) {
+					upper = true
+					facts = append(facts, fmt.Sprintf("%s %s %d (len %d)", p.Name(), op, k, n))
+				}
+			}
+			continue
+		}
+		// upper bound against len(base) or len(base)-1
+		if lenOfSame(R, base, 0) && (op == token.LSS) {
+			upper = true
+			facts = append(facts, p.Name()+" < len")
+		}
+		if lenOfSame(R, base, -1) && (op == token.LEQ) {
+			upper = true
+			facts = append(facts, p.Name()+" <= len-1")
+		}
+	}
+	return
 }
 
 func flip(op token.Token) token.Token {
